@@ -123,6 +123,8 @@ def nf(tu, n, env=None, depth=0):
             return ('deref', o)
         if name == 'operator[]':
             return ('index', o, a[0])
+        if q in ('std::vector::front', 'std::array::front') and not a and o is not None:
+            return ('index', o, ('int', 0))          # v.front() is v[0]
         if name.startswith('operator') and k == 'CXXOperatorCallExpr':
             return op_nf(name[len('operator'):], ([o] if o is not None else []) + a)
         if name in ('move', 'forward') and q.startswith('std::') and a:
@@ -1455,10 +1457,21 @@ def check_adaptors(ctx, tu):
 
     def one_return(f, inst):
         env, stmts, rets = fn_statements(tu, f)
-        if stmts or len(rets) != 1:
-            ctx.undecided(R, inst, 'body is not a single return statement', tu.fn_loc(f))
-            return None
-        return nf(tu, rets[0], env)
+        if not stmts and len(rets) == 1:
+            return nf(tu, rets[0], env)
+        # local declarations and conditional assignments in front of the return: evaluate them into one term
+        b_ = tu.body(f)
+        sts_ = []
+        for st in (tu.kids(b_) if b_ else []):
+            if st.get('kind') in ('ParenExpr', 'NullStmt'):
+                x_ = tu.strip(st)
+                if x_ is not None and x_.get('kind') == 'ConditionalOperator':
+                    continue             # assert(...)
+            sts_.append(st)
+        r_ = eval_body(tu, sts_, {}, 0) if sts_ else None
+        if r_ is None:
+            ctx.undecided(R, inst, 'body is not a return preceded by declarations / conditional assignments', tu.fn_loc(f))
+        return r_
 
     for f in find_fns(tu, r'^rkcommon::array3D::(IndexShiftedArray3D|SubBoxArray3D|Array3DAccessor|MultiSliceArray3D|ActualArray3D)<.*>::'
                           r'(get|set|size|numElements)$'):
@@ -1636,6 +1649,14 @@ def check_adaptors(ctx, tu):
                 lo_, hi_ = clamp_bounds(mm(target[1][2]), mm(z))
                 ctx.violation(R, inst, 'clamps the slice index to [%s, %s] instead of [0, slice.size() - 1]' % (show(lo_), show(hi_)), loc,
                               key=key + 'clamp')
+            elif target[0] == 'deref' and target[1][0] == 'index' and target[1][1] == ('mem', this, slices) and \
+                    isinstance(mm(target[1][2]), tuple) and mm(target[1][2])[0] in ('min', 'max') and len(mm(target[1][2])[1]) == 2 and \
+                    mm(z) in mm(target[1][2])[1] and clamp_bounds(mm(target[1][2]), mm(z)) is None:
+                one = mm(target[1][2])
+                other_ = one[1][0] if one[1][1] == mm(z) else one[1][1]
+                ctx.violation(R, inst, 'the slice index %s(where.z, %s) is bounded on one side only: %s' % (one[0], show(other_),
+                              'a negative z indexes before the first slice' if one[0] == 'min' else 'a z beyond the stack indexes past the last slice'),
+                              loc, key=key + 'clamp')
             elif target[0] == 'deref' and target[1][0] == 'index' and target[1][1] == ('mem', this, slices):
                 ix = target[1][2]
                 if ix == z:
